@@ -13,7 +13,8 @@ MIN_NONTRIVIAL = 0.5
 RULE = ("Hypothesis: (sequence, numerator, denominator in {1,2,3,4,6,8,12,16,24,32,48,64,96,128} with 96*num/den a whole number of ticks, key or None); the sequence's duration is drawn "
         "relative to the capacity 96*num/den (shorter, equal, +1 tick, much longer, and between the capacity and 24x the "
         "capacity, where a quarter-note/tick confusion hides); 0, 1 matching, 1 conflicting, 2 different, matching + "
-        "conflicting or duplicate identical signature events at tick 0 or mid-sequence; any construction route. Oracle: "
+        "conflicting or duplicate identical signature events at tick 0 or mid-sequence; any construction route; a sixth of the cases holds zero-length grace notes in a hand-written relative list; "
+        "the bar's absolute view or duration is read between construction and copy in half of the cases. Oracle: "
         "outcome is BarException, or a bar lasting exactly the capacity whose relative list starts with its only "
         "time-signature event equal to (num, den); BarException is required when the duration exceeds the capacity or a "
         "conflicting / second different signature is present; any other exception type is a violation; bar.copy() has equal "
